@@ -105,6 +105,18 @@ func (o *c03) State(c *core.Ctx) {
 				o.viol(c, "restart.read", "header unreadable or altered after restart", m.Hash, fmt.Sprint(bh, err))
 			}
 		}
+		// once more with db.prepared_db = true (standing configuration of an installation that was
+		// set up from a prepared file): the import must be skipped, nothing may change
+		r2.CloseKeep()
+		r2 = core.OpenRig(c.Rig.Path, core.RigOpts{ReInit: true, Prepared: true})
+		rep.Executions++
+		rep.Outcome("restart:prepared_db")
+		if r2.InitErr != nil {
+			o.viol(c, "restart.prepared.failed", "database.Init with prepared_db=true fails on a store that holds headers", nil, r2.InitErr.Error())
+		}
+		if d := core.Digest(core.DumpHeaders(r2.DB)); d != before {
+			o.viol(c, "restart.prepared.changed", "database.Init with prepared_db=true changed a headers table that was not empty", before, d)
+		}
 		// hand the reopened handle back to the walker (it copies the file for successors)
 		c.Rig.DB = r2.DB
 		c.Rig.Svc = r2.Svc
